@@ -14,10 +14,10 @@ import (
 
 // Program is the loaded /repo.
 type Program struct {
-	Prog  *ssa.Program
-	Pkgs  []*packages.Package
-	SSA   []*ssa.Package
-	ByPath map[string]*ssa.Package
+	Prog      *ssa.Program
+	Pkgs      []*packages.Package
+	SSA       []*ssa.Package
+	ByPath    map[string]*ssa.Package
 	PkgByPath map[string]*packages.Package
 }
 
